@@ -27,3 +27,8 @@ Definition encode_bitfield (k : bf_kind) (size a b : Z) : option (Z * Z) :=   (*
 Definition ubfm_sem (size immr imms src : Z) : Z :=
   if immr <=? imms then (src / 2 ^ immr) mod 2 ^ (imms - immr + 1)
   else ((src mod 2 ^ (imms + 1)) * 2 ^ (size - immr)) mod 2 ^ size.
+
+(* ROR Rd, Rn, #shift is an alias of EXTR Rd, Rn, Rn, #shift (case kEncodingBaseShift, `op_data.ror` branch): imms = shift, Rm = Rn *)
+Definition encode_ror_imm (size sh : Z) : option Z := if size <=? sh then None else Some sh.
+(* EXTR (ARM ARM C6.2): concat = X[n]:X[m]; result = concat<lsb+datasize-1:lsb> *)
+Definition extr_pc (size hi lo lsb : Z) : Z := ((hi * 2 ^ size + lo) / 2 ^ lsb) mod 2 ^ size.
